@@ -74,13 +74,27 @@ impl<R: Read + Seek> ReadBox<&mut R> for StsdBox {
 
         let (version, flags) = read_box_header_ext(reader)?;
 
-        reader.read_u32::<BigEndian>()?; // XXX entry_count
+        let entry_count = reader.read_u32::<BigEndian>()?;
 
         let mut avc1 = None;
         let mut hev1 = None;
         let mut vp09 = None;
         let mut mp4a = None;
         let mut tx3g = None;
+
+        if entry_count == 0 || size <= HEADER_SIZE + HEADER_EXT_SIZE + 4 {
+            // no sample entry to read
+            skip_bytes_to(reader, start + size)?;
+            return Ok(StsdBox {
+                version,
+                flags,
+                avc1,
+                hev1,
+                vp09,
+                mp4a,
+                tx3g,
+            });
+        }
 
         // Get box header.
         let header = BoxHeader::read(reader)?;
@@ -136,7 +150,12 @@ impl<W: Write> WriteBox<&mut W> for StsdBox {
 
         write_box_header_ext(writer, self.version, self.flags)?;
 
-        writer.write_u32::<BigEndian>(1)?; // entry_count
+        let entry_count = self.avc1.is_some()
+            || self.hev1.is_some()
+            || self.vp09.is_some()
+            || self.mp4a.is_some()
+            || self.tx3g.is_some();
+        writer.write_u32::<BigEndian>(entry_count as u32)?; // entry_count
 
         if let Some(ref avc1) = self.avc1 {
             avc1.write_box(writer)?;
